@@ -18,6 +18,9 @@ def classify(why):
         props.add("C04")
     if "without holding stripe" in w or "functor runs" in w or "before the resize counter was re-validated" in w:
         props.add("C03")
+    if "old bucket array is released" in w:
+        props.add("C08")
+        props.add("C01")
     if "before the resize counter was advanced" in w or "without holding every lock" in w:
         props.add("C06")
         props.add("C01")
